@@ -39,7 +39,7 @@ static unsigned long g_u_bits; static unsigned char g_u_type; static uint64_t g_
 #endif
 
 typedef __typeof__(((struct CollectionData *)0)->head_) slotid_t; /* SlotId of this configuration */
-#define NSLOT ((slotid_t)NULL_SLOT)
+#define NSLOT ((slotid_t)~(slotid_t)0) /* the reserved id: all ones in the slot-id type (not the constant of the lowered code, which is emitted only when the unit's functions name it) */
 typedef struct VariantData VD;
 
 /* VariantType / VariantTypeBits as VariantContent.hpp documents them (bit layout is part of the C04 clear() clause) */
